@@ -6,7 +6,7 @@ C01 — the cached components of the natives that are not part of Model/Ledger/N
                discipline protects against (`settings_ro_write_breaks_coherence`); the setters as written, with their
                guards, are Model/Ledger/Guarded.lean (gsettings)
   whitelist    Policy whitelisted fees (policy.go:845-990)
-  management   ContractManagement: contract records and the next contract id (management.go)
+  (ContractManagement with manifests: Model/Ledger/Mgmt.lean)
   (RoleManagement storage/cache types and `maxEntry` live here; the guarded component is Guarded.gdesignate)
 
 and two NEO caches whose coherence is a lookup property, not an equality:
@@ -77,32 +77,6 @@ def maxEntry (s : RoleStore) (r : Nat) : Option (Nat × List Nat) :=
         | some (h, n) => if e.1.2 > h then some (e.1.2, e.2) else some (h, n)
         | none => some (e.1.2, e.2))
     else acc) none
-
--- ContractManagement -----------------------------------------------------------------------------------------
-structure MgmtStore where
-  contracts : List (Nat × (Int × Nat))   -- contract hash ↦ (id, update counter)
-  nextId : Int
-deriving DecidableEq, Repr
-
-inductive MgmtOp where
-  | deploy (hash : Nat)
-  | update (hash : Nat)
-  | destroy (hash : Nat)
-deriving DecidableEq, Repr
-
-def management : Comp MgmtStore (List (Nat × (Int × Nat))) MgmtOp where
-  exec := fun s c _ o => match o with
-    | .deploy h => match aget c h with
-      | some _ => none                                  -- "contract already exists"
-      | none => some ({ contracts := aput s.contracts h (s.nextId, 0), nextId := s.nextId + 1 }, aput c h (s.nextId, 0))
-    | .update h => match aget c h with
-      | none => none
-      | some (id, u) => some ({ s with contracts := aput s.contracts h (id, u + 1) }, aput c h (id, u + 1))
-    | .destroy h => match aget c h with
-      | none => none
-      | some _ => some ({ s with contracts := adel s.contracts h }, adel c h)
-  init := fun s => s.contracts
-  leak := fun c _ => c
 
 -- NEO gasPerBlock ---------------------------------------------------------------------------------------------
 /-- getSortedGASRecordFromDAO: records ordered by index (insertion into an ordered list) -/
